@@ -141,7 +141,9 @@ class NativeCtx:
     def int(self, name, lo, hi):
         if lo == hi:
             return lo
-        v = self._val(name, lambda h: lo + int.from_bytes(h, "big") % (hi - lo + 1))
+        from symex.engine import default_value
+
+        v = self.inputs[name] if name in self.inputs else default_value(name, lo, hi)
         if not lo <= v <= hi:
             raise NativeAssumeFailed(f"{name}={v} outside [{lo},{hi}]")
         return v
